@@ -67,7 +67,7 @@ def gen_tree(rng, max_up=None, deep=None):
     return order, parent
 
 
-def gen_nas(rng, style=None, deep=None):
+def gen_nas(rng, style=None, deep=None, res_o=True):
     """returns (nas dict for pyyeti, info) ; info holds the construction knowledge"""
     from pyyeti.nastran import n2p
 
@@ -129,7 +129,7 @@ def gen_nas(rng, style=None, deep=None):
                 nid = cn.id if keep_id else fresh()
                 used.add(nid)
                 if s == 0:
-                    L = rng.choice("bbo")
+                    L = rng.choice("bbo") if res_o else "b"
                 else:
                     L = "b" if rng.random() < 0.65 else "o"
                 nd = Node(nid, cn.grid, [L] * (6 if cn.grid else 1), src=(c, k))
